@@ -181,16 +181,23 @@ class Model():
             raise ValueError(f'Asset index {asset_id} already in use.')
 
         if not hasattr(asset, 'name'):
-            asset.name = asset.type + ':' + str(asset.id)
+            asset_name = asset.type + ':' + str(asset.id)
         else:
-            if asset.name in self.asset_names:
+            asset_name = str(asset.name)
+            if asset_name in self.asset_names:
                 if allow_duplicate_names:
-                    asset.name = asset.name + ':' + str(asset.id)
+                    asset_name = asset_name + ':' + str(asset.id)
                 else:
                     raise ValueError(
                         f'Asset name {asset.name} is a duplicate'
                         ' and we do not allow duplicates.'
                     )
+        if asset_name in self.asset_names:
+            # The automatically generated name can itself be taken already
+            raise ValueError(
+                f'Asset name {asset_name} is already in use.'
+            )
+        asset.name = asset_name
 
         # Only reserve the id and the name once the asset is accepted
         self.asset_ids.add(asset.id)
